@@ -169,7 +169,8 @@ type c06E2E struct {
 	logbuf *c06SyncBuf
 	seq    int
 
-	parseFails int
+	parseFails  int
+	histSamples int
 }
 
 type c06SyncBuf struct {
@@ -571,6 +572,32 @@ func TestVerifC06EndToEnd(t *testing.T) {
 	}
 	modes := []string{"blocklist", "allowlist", "loopback-net"}
 	sources := []pb.RegistrationSource{pb.RegistrationSource_API, pb.RegistrationSource_Detector, pb.RegistrationSource_BidirectionalAPI, pb.RegistrationSource_DNS, pb.RegistrationSource_DetectorPrescan}
+
+	// history class: one registration delivered several times with different coverts, tracking records
+	// back-dated in between (zz_verif_c06_history_test.go)
+	{
+		hrng := kit.Rand("c06/e2e/history")
+		hmodes := []string{"blocklist", "allowlist"}
+		hn := 0
+		one := func(kind string, age int, mode string, src pb.RegistrationSource, dual bool) {
+			b := make([]byte, 32)
+			hrng.Read(b)
+			e.runHistory(kind, age, mode, src, dual, b)
+			hn++
+		}
+		for _, kind := range c06HistoryKinds {
+			for _, age := range c06HistoryAges {
+				for _, mode := range hmodes {
+					one(kind, age, mode, sources[hn%len(sources)], hn%5 == 4)
+				}
+			}
+		}
+		rec.Exhaustive(fmt.Sprintf("history class: every kind (%d) × every back-dating (%v min) × policy modes %v", len(c06HistoryKinds), c06HistoryAges, hmodes))
+		for i := kit.Tier(0, 3000); i > 0; i-- {
+			one(c06HistoryKinds[hrng.Intn(len(c06HistoryKinds))], c06HistoryAges[hrng.Intn(len(c06HistoryAges))], hmodes[hrng.Intn(len(hmodes))],
+				sources[hrng.Intn(len(sources))], hrng.Intn(4) == 0)
+		}
+	}
 
 	rng := kit.Rand("c06/e2e")
 	n := kit.Tier(600, 20000)
